@@ -159,6 +159,8 @@ def run(tier, seed):
                           {"class": cname, "law": name, "lhs": lhs, "rhs": rhs, "impl_lhs": il, "impl_rhs": ir,
                            "replay": "cd /verif/harness && PYTHONPATH=/repo /venv/bin/python -B -c \"import core_impl as ci; "
                                      "c=ci.Cls('%s'); print(ci.interp2(c, %r) == ci.interp2(c, %r))\"" % (cname, lhs, rhs)})
+    common.cross_check_extraction(rep, "sums", ["DV.Common.Base", "DV.Core.SumProg"], "run_sexp2", progs,
+                                  random.Random(seed + 99), n=60 if tier == "quick" else 600)
     base.settle(rep, "C02", proof_ok, "C02")
     return rep.finish(
         rule="classes monoidal and rigid: random composable triples / parallel families of grown diagrams "
